@@ -6,7 +6,6 @@ use crate::{
     tape::Tape,
 };
 use serde_json::{Value as Json, json};
-use simplesl::variable::Variable;
 
 pub struct C19Prop;
 pub static C19: C19Prop = C19Prop;
@@ -291,12 +290,155 @@ fn near(tape: &mut Tape, v: &Json) -> Json {
     }
 }
 
+// ---------- function values, cells and iterators: equality is identity ----------
+
+/// ways of creating one object; each evaluation of the expression creates a new one
+const CTORS: [&str; 8] = [
+    "() -> int { return 1; }",
+    "(p: int) -> int { return p; }",
+    "mut 0",
+    "mut [int] []",
+    "[1]~",
+    "mkf()",
+    "mkc()",
+    "[1, 2]~ ? (p: int) -> bool { return true; }",
+];
+
+const ID_PRELUDE: &str = "mkf := () -> () -> int { return () -> int { return 1; }; }; mkc := () -> mut int { return mut 0; }; \
+    tru := () -> bool { return true; }; cmp := (l: any, r: any) -> (bool, bool, bool) { return (l == r, l != r, r == l); }; ";
+
+/// ways of handing an object on without copying it
+fn alias(path: usize, o: &str) -> String {
+    match path {
+        0 => o.to_string(),
+        1 => format!("idf({o})"),
+        2 => format!("[{o}][0]"),
+        3 => format!("({o}, 1).0"),
+        4 => format!("struct{{k := {o}}}.k"),
+        5 => format!("(() -> any {{ return {o}; }})()"),
+        6 => format!("*(mut any {o})"),
+        7 => format!("if tru() {{ {o} }} else {{ 0 }}"),
+        8 => format!("([0]~ @ (i: int) -> any {{ return {o}; }} $])[0]"),
+        _ => format!("match {o} {{ m: any => m, }}"),
+    }
+}
+const ALIAS_PATHS: usize = 10;
+
+fn gen_identity(tape: &mut Tape) -> Json {
+    let n = 2 + tape.below(3);
+    let ctors: Vec<usize> = (0..n).map(|_| tape.below(CTORS.len())).collect();
+    let m = 2 + tape.below(3);
+    let aliases: Vec<(usize, usize)> = (0..m).map(|_| (tape.below(n), tape.below(ALIAS_PATHS))).collect();
+    let (l, r) = (tape.below(m), tape.below(m));
+    json!({"kind": "identity", "ctors": ctors, "aliases": aliases, "l": l, "r": r, "how": tape.below(6)})
+}
+
+fn identity_program(case: &Json) -> Option<(String, bool)> {
+    if let Some(p) = case["program"].as_str() {
+        return Some((p.to_string(), case["same"].as_bool()?));
+    }
+    let ctors: Vec<usize> = case["ctors"].as_array()?.iter().filter_map(|c| c.as_u64().map(|c| c as usize)).collect();
+    let aliases: Vec<(usize, usize)> = case["aliases"].as_array()?.iter().filter_map(|a| Some((a[0].as_u64()? as usize, a[1].as_u64()? as usize))).collect();
+    let (l, r) = (case["l"].as_u64()? as usize, case["r"].as_u64()? as usize);
+    let mut text = String::new();
+    for (i, c) in ctors.iter().enumerate() {
+        text += &format!("o{i} := {}; ", CTORS.get(*c)?);
+    }
+    for (j, (o, path)) in aliases.iter().enumerate() {
+        if *o >= ctors.len() {
+            return None;
+        }
+        text += &format!("a{j} := {}; ", alias(*path, &format!("o{o}")));
+    }
+    let same = aliases.get(l)?.0 == aliases.get(r)?.0;
+    let (a, b) = (format!("a{l}"), format!("a{r}"));
+    let compare = match case["how"].as_u64().unwrap_or(0) {
+        0 => format!("({a} == {b}, {a} != {b}, {b} == {a})"),
+        1 => format!("cmp({a}, {b})"),
+        2 => format!("([{a}] == [{b}], [{a}] != [{b}], ({b}, 1) == ({a}, 1))"),
+        3 => format!("m1 := match {a} {{ ({b}) => true, => false, }}; m2 := match {a} {{ ({b}) => false, => true, }}; (m1, m2, struct{{k := {b}}} == struct{{k := {a}}})"),
+        4 => format!("(idf({a}) == {b}, {a} != idf({b}), cmp({b}, {a}).0)"),
+        _ => format!("in := () -> any {{ return ({a} == {b}, {a} != {b}, {b} == {a}); }}; in()"),
+    };
+    Some((format!("{text}{compare}"), same))
+}
+
+fn check_identity(case: &Json, stats: &mut Stats) -> Verdict {
+    let Some((body, same)) = identity_program(case) else {
+        return Verdict::Discard("malformed identity case");
+    };
+    let program = format!("{PRELUDE}{ID_PRELUDE}{body}");
+    stats.eval();
+    stats.label(if same { "identity: same object" } else { "identity: different objects" });
+    if same {
+        stats.nontrivial(&body);
+    }
+    let want = lit::tuple(vec![json!(same), json!(!same), json!(same)]);
+    match crate::exec::run_program(&program, false).outcome {
+        Outcome::Value(got) if lit::from_var(&got).as_ref() == Some(&want) => {
+            stats.sample(4, || json!({"program": body, "same_object": same}));
+            Verdict::Pass
+        }
+        o => fail(
+            format!("C19:identity:{}", if same { "same-object" } else { "different-objects" }),
+            format!("`{program}`: {} (expected {}: the operands are {})", o.short(), lit::show(&want), if same { "one object" } else { "two objects" }),
+        ),
+    }
+}
+
+/// hand-written identity programs: (program yielding (l == r, l != r, r == l), same object?)
+fn identity_catalogue() -> Vec<(&'static str, bool)> {
+    vec![
+        ("f := () -> int { return 1; }; g := f; (f == g, f != g, g == f)", true),
+        ("f := () -> int { return 1; }; g := () -> int { return 1; }; (f == g, f != g, g == f)", false),
+        ("a := mkf(); b := mkf(); (a == b, a != b, b == a)", false),
+        ("a := mkf(); (a == a, a != a, a == a)", true),
+        ("me := () -> any { return me; }; (me() == me, me() != me, me == me())", true),
+        ("me := () -> any { return me; }; (me() == me(), me() != me(), idf(me()) == me)", true),
+        ("slf := (h: any) -> any { return (h == slf, h != slf, slf == h); }; slf(slf)", true),
+        ("slf := (h: any) -> any { return (h == slf, h != slf, slf == h); }; slf(idf)", false),
+        ("slf := (h: any) -> any { return (h == slf, h != slf, slf == h); }; g := slf; g(slf)", true),
+        ("slf := (h: any) -> any { return (h == slf, h != slf, slf == h); }; g := slf; slf(g)", true),
+        ("fact := (n: int) -> any { if n == 0 { return fact; } return fact(n - 1); }; (fact(3) == fact, fact(3) != fact, fact == fact(2))", true),
+        ("fact := (n: int) -> any { if n == 0 { return fact; } return fact(n - 1); }; g := fact; (g(3) == g, g(3) != g, fact == g(2))", true),
+        ("c := mut 1; d := c; (c == d, c != d, d == c)", true),
+        ("c := mut 1; d := c; d = 5; (c == d, c != d, d == c)", true),
+        ("c := mut 1; e := mut 1; (c == e, c != e, e == c)", false),
+        ("c := mut 1; (c == (mut 1), c != (mut 1), (mut 1) == c)", false),
+        ("c := mut 1; (c == 1, c != 1, 1 == c)", false),
+        ("c := mut 1; (*c == 1, *c != 1, 1 == *c)", true),
+        ("c := mkc(); d := mkc(); (c == d, c != d, d == c)", false),
+        ("c := mut [int] []; d := mut [int] []; (c == d, c != d, d == c)", false),
+        ("c := mut [int] []; d := c; d += [1]; (c == d, c != d, d == c)", true),
+        ("it := [1]~; jt := it; (it == jt, it != jt, jt == it)", true),
+        ("it := [1]~; (it == [1]~, it != [1]~, [1]~ == it)", false),
+        ("it := [1]~; jt := it; jt(); (it == jt, it != jt, jt == it)", true),
+        ("a := [1]; it := a~; jt := a~; (it == jt, it != jt, jt == it)", false),
+        ("f := () -> int { return 1; }; (f == 1, f != 1, 1 == f)", false),
+        ("f := () -> int { return 1; }; (f() == 1, f() != 1, 1 == f())", true),
+        ("(std.len == std.len, std.len != std.len, idf(std.len) == std.len)", true),
+        ("(std.len == std.string.trim, std.len != std.string.trim, std.string.trim == std.len)", false),
+        ("fs := [0, 1]~ @ (i: int) -> () -> int { return () -> int { return i; }; } $]; (fs[0] == fs[1], fs[0] != fs[1], fs[1] == fs[0])", false),
+        ("fs := [0, 1]~ @ (i: int) -> () -> int { return () -> int { return i; }; } $]; (fs[0] == fs[0], fs[1] != fs[1], fs == fs)", true),
+        ("f := () -> int { return 1; }; fs := [f; 3]; (fs[0] == fs[2], fs[0] != fs[1], [f, f, f] == fs)", true),
+        ("c := mut 0; cs := [c; 2]; cs[0] = 7; (cs[1] == c, cs[0] != cs[1], [c, c] == cs)", true),
+        ("f := () -> int { return 1; }; g := () -> any { return f; }; (g() == f, g() != f, f == g())", true),
+        ("f := (p: int) -> int { return p; }; h := (q: (int) -> int) -> any { return (q == f, q != f, f == q); }; h(f)", true),
+        ("f := (p: int) -> int { return p; }; h := (q: (int) -> int) -> any { return (q == f, q != f, f == q); }; h((p: int) -> int { return p; })", false),
+        ("s := struct{f := () -> int { return 1; }, c := mut 0}; t := s; (s == t, s != t, t.f == s.f)", true),
+        ("mk := () -> struct{f: () -> int} { return struct{f := () -> int { return 1; }}; }; (mk() == mk(), mk() != mk(), mk().f == mk().f)", false),
+    ]
+}
+
 impl Property for C19Prop {
     fn id(&self) -> &'static str {
         "C19"
     }
 
     fn gen_case(&self, tape: &mut Tape, _tier: Tier) -> Option<Json> {
+        if tape.chance(1, 5) {
+            return Some(gen_identity(tape));
+        }
         let depth = tape.below(3);
         let x = if tape.chance(2, 3) {
             // arrays are where provenance matters most
@@ -310,6 +452,9 @@ impl Property for C19Prop {
     }
 
     fn check_case(&self, case: &Json, stats: &mut Stats) -> Verdict {
+        if case["kind"] == "identity" {
+            return check_identity(case, stats);
+        }
         let (x, y) = (&case["x"], &case["y"]);
         let (px, py) = (case["px"].as_str().unwrap_or("literal"), case["py"].as_str().unwrap_or("literal"));
         let salt = case["salt"].as_u64().unwrap_or(0) as usize;
@@ -355,6 +500,7 @@ impl Property for C19Prop {
             (format!("{PRELUDE}[{ex}] == [{ey}]"), equal, "inside-array"),
             (format!("{PRELUDE}(1, {ex}) == (1, {ey})"), equal, "inside-tuple"),
             (format!("{PRELUDE}struct{{k := {ex}}} == struct{{k := {ey}}}"), equal, "inside-struct"),
+            (format!("{PRELUDE}cmp := (l: any, r: any) -> any {{ return (l == r, l != r, r == l); }}; cmp({ex}, {ey})"), equal, "runtime-triple"),
         ];
         for (program, want, how) in checks {
             stats.eval();
@@ -381,13 +527,21 @@ impl Property for C19Prop {
                 o => return fail(format!("C19:{how}:{}", o.panic_sig().unwrap_or("outcome".into())), format!("`{program}`: {}", o.short())),
             }
         }
-        // reflexivity through one binding (no NaN)
-        if !contains_nan(x) {
+        // a value compared with itself through one name: true exactly when it contains no NaN
+        // (at the top level, inside a function body, and of a parameter with a declared type)
+        let refl = model_eq(x, x);
+        debug_assert_eq!(refl, !contains_nan(x));
+        let want = lit::tuple(vec![json!(refl), json!(!refl)]);
+        for (program, how) in [
+            (format!("{PRELUDE}v := idf({ex}); (v == v, v != v)"), "self"),
+            (format!("{PRELUDE}v := {ex}; (v == v, v != v)"), "self-constant"),
+            (format!("{PRELUDE}slf := (v: any) -> any {{ return (v == v, v != v); }}; slf({ex})"), "self-in-function"),
+            (format!("{PRELUDE}slf := (v: any) -> any {{ w := v; return (w == v, v != w); }}; slf({ex})"), "self-in-function-alias"),
+        ] {
             stats.eval();
-            let program = format!("{PRELUDE}v := idf({ex}); (v == v, v != v)");
             match run::run_text(&program, false) {
-                Outcome::Value(Variable::Tuple(t)) if t.len() == 2 && t[0] == Variable::Bool(true) && t[1] == Variable::Bool(false) => {}
-                o => return fail("C19:reflexive", format!("`{program}`: {}", o.short())),
+                Outcome::Value(got) if lit::from_var(&got).as_ref() == Some(&want) => {}
+                o => return fail(format!("C19:{how}:{}", if refl { "no-nan" } else { "nan" }), format!("`{program}`: {} (expected {})", o.short(), lit::show(&want))),
             }
         }
         Verdict::Pass
@@ -417,6 +571,18 @@ pub fn run(session: &Session) -> i32 {
             }
         }
     }
+    for (program, same) in identity_catalogue() {
+        cases.push(json!({"kind": "identity", "program": program, "same": same}));
+    }
+    // every pair of ways of handing one object on, for every kind of object, compared in every way
+    for c in 0..CTORS.len() {
+        for pa in 0..ALIAS_PATHS {
+            for pb in 0..ALIAS_PATHS {
+                cases.push(json!({"kind": "identity", "ctors": [c, c], "aliases": [[0, pa], [0, pb], [1, pb]], "l": 0, "r": 1, "how": (pa + pb) % 6}));
+                cases.push(json!({"kind": "identity", "ctors": [c, c], "aliases": [[0, pa], [0, pb], [1, pb]], "l": 0, "r": 2, "how": (pa + 2 * pb) % 6}));
+            }
+        }
+    }
     session.set_extra("basis_values", json!(basis.len()));
     session.set_extra("provenance_paths", json!(PATHS));
     if !session.stopped() {
@@ -426,7 +592,7 @@ pub fn run(session: &Session) -> i32 {
         session.run_tapes(&C19, session.tier.of(30_000, 1_500_000), 120, 0);
     }
     session.finish(
-        "pairs (x, y) of first-order values (ints, floats incl. NaN / signed zeros / near-equal values, strings, bools, (), arrays, tuples, structs; nesting <= 3) with equal or nearly equal content (one element changed, int vs float, array vs tuple, extra field ...), each built along one of 24 provenance paths (literal, + concatenation incl. with [], slices, $], partition halves, ? p, ? T, @, [v; n] incl. n = 0, through any-typed functions / union-typed ifs / array, tuple, struct, cell, closure, reduce, for-loop, match-binding positions, string operations); compared with ==, != (both operand orders), as match value candidates, bound to names, through any-typed run-time positions and nested inside arrays/tuples/structs; oracle = structural equality of the JSON models (IEEE for floats, kinds distinct), != its negation, symmetry, reflexivity without NaN. 20 basis values x all pairs of paths are swept completely. Non-trivial = equal content with different provenance; distinct by the pair of expressions.",
+        "pairs (x, y) of first-order values (ints, floats incl. NaN / signed zeros / near-equal values, strings, bools, (), arrays, tuples, structs; nesting <= 3) with equal or nearly equal content (one element changed, int vs float, array vs tuple, extra field ...), each built along one of 24 provenance paths (literal, + concatenation incl. with [], slices, $], partition halves, ? p, ? T, @, [v; n] incl. n = 0, through any-typed functions / union-typed ifs / array, tuple, struct, cell, closure, reduce, for-loop, match-binding positions, string operations); compared with ==, != (both operand orders), as match value candidates, bound to names, through any-typed run-time positions and nested inside arrays/tuples/structs; oracle = structural equality of the JSON models (IEEE for floats, kinds distinct), != its negation, symmetry; a value compared with itself through one name (top level, constant, inside a function body) is equal to itself exactly when it contains no NaN. Identity part: function values, cells and iterators created by 8 kinds of expressions (literals, closure / cell factories, native iterators), handed on along 10 alias paths (any-typed function, array element, tuple component, struct field, closure result, cell content, union-typed if, map result, match binding), compared by ==, !=, inside arrays / tuples / structs, as match value arms, inside function bodies: equal exactly when both operands stem from one creation (all pairs of paths x all kinds swept, 38 hand-written programs incl. self-reference of named functions, recursion, std functions, [f; n]). 20 basis values x all pairs of paths are swept completely. Non-trivial = equal content with different provenance; distinct by the pair of expressions.",
         false,
         &["provenance expressions are first checked to evaluate to the intended value"],
     )
